@@ -36,6 +36,9 @@ type pubWalker struct {
 // pubSplice: plain in-package functions that are extraction targets themselves.
 var pubSplice = map[string]bool{"WriteTXIDFile": true}
 
+// pubExclusive: staging files created with O_EXCL (a retry after a kill finds the stale file and fails).
+var pubExclusive []string
+
 var errPubExit = fmt.Errorf("left through an alternative exit")
 
 // condKey strips parentheses and leading negations: (text of the base condition, negated?).
@@ -340,6 +343,9 @@ func (w *pubWalker) call(c *ast.CallExpr, lhs []ast.Expr) error {
 		method, recv = sel.Sel.Name, sel.X
 	}
 	if path, isTemp, ok := pubCreate(c); ok {
+		if len(c.Args) >= 2 && strings.Contains(types.ExprString(c.Args[1]), "O_EXCL") {
+			pubExclusive = append(pubExclusive, w.p.fset.Position(c.Pos()).String())
+		}
 		if isTemp {
 			create("tmp")
 		} else {
@@ -698,6 +704,7 @@ func pubExtract(p *pkg, repo, recvType, fn, name string) ([]pubVariant, error) {
 
 func init() {
 	facts["Publish"] = func(repo string) (string, error) {
+		pubExclusive = nil
 		root, err := loadPkg(repo)
 		if err != nil {
 			return "", err
@@ -812,6 +819,16 @@ func init() {
 			fmt.Fprintf(&js, `{"name":%q,"steps":[%s]}`, e.name, strings.Join(quoted, ","))
 		}
 		fmt.Fprintf(&sb, "def publishProtocols : List Protocol := [%s]\n\n", strings.Join(ids, ", "))
+		seen := map[string]bool{}
+		var excl []string
+		for _, e := range pubExclusive {
+			e = strings.TrimPrefix(e, repo+"/")
+			if !seen[e] {
+				seen[e] = true
+				excl = append(excl, fmt.Sprintf("%q", e))
+			}
+		}
+		fmt.Fprintf(&sb, "/-- staging files of the publishing functions that are created exclusively (O_EXCL): after a kill the stale\n    staging file makes the retry's first step fail unless it is removed first -/\ndef exclusiveStagingCreates : List String := [%s]\n\n", strings.Join(excl, ", "))
 		openTmp, err := openRemovesTmp(root)
 		if err != nil {
 			return "", err
